@@ -119,6 +119,13 @@ func ForceIntn(k int) {
 	s.mu.Unlock()
 }
 
+// Force8 makes the next 8-byte read yield exactly b.  Several calls queue up.
+func Force8(b [8]byte) {
+	s.mu.Lock()
+	s.force8 = append(s.force8, b)
+	s.mu.Unlock()
+}
+
 // ClearForced drops queued forced answers.
 func ClearForced() {
 	s.mu.Lock()
